@@ -1196,6 +1196,9 @@ rrul_fill_mly(echs_instant_t *restrict tgt, size_t nti, rrulsp_t rr)
 		y -= m <= 0;
 		m += m > 0 ? 0 : 12;
 		m = m > 0 ? m : 1;
+		/* negative shifts make us start later, possibly next year */
+		y += (m - 1) / 12;
+		m = (m - 1) % 12 + 1;
 	}
 
 	/* get m on track */
